@@ -65,7 +65,7 @@ def seeded():
         m = json.load(open(mp))
         name = 'seeded/' + os.path.basename(d)
         r = res.get(name, {})
-        first = 'missed' if m.get('initially_missed') else 'caught'
+        first = 'not recorded' if 'initially_missed' not in m else ('missed' if m['initially_missed'] else 'caught')
         st = m.get('strengthening') or (short(str(m.get('initially_missed')), 200) if m.get('initially_missed') else '')
         rows.append('| `%s` | %s | %s (%s) | %s | %s |' % (os.path.basename(d), seed_summary(m), r.get('verdict', 'not run'), m['property'], first,
                                                        short(st, 260)))
